@@ -277,56 +277,8 @@ func ruleR062(c *Ctx) {
 	}
 	n := 0
 	forEachFuncBody([]*packages.Package{vp}, func(pkg *packages.Package, fn ast.Node, body *ast.BlockStmt) {
-		g := c.CFG(fn)
-		var locks, unlocks []*ast.CallExpr
-		inspectNoLit(body, func(y ast.Node) bool {
-			if call, ok := y.(*ast.CallExpr); ok {
-				if cal := Callee(info, call); cal != nil && cal.Pkg() != nil && cal.Pkg().Path() == "sync" {
-					switch cal.Name() {
-					case "Lock":
-						locks = append(locks, call)
-					case "Unlock":
-						if _, isDefer := c.Parent(call).(*ast.DeferStmt); !isDefer {
-							unlocks = append(unlocks, call)
-						}
-					}
-				}
-			}
-			return true
-		})
-		isUnlock := func(x ast.Node) bool {
-			return containsNode(x, func(y ast.Node) bool {
-				for _, u := range unlocks {
-					if y == ast.Node(u) {
-						return true
-					}
-				}
-				return false
-			})
-		}
-		held := func(at ast.Node) bool {
-			for _, l := range locks {
-				if !g.Dominates(l, at) {
-					continue
-				}
-				blk, idx, ok := g.Pos(at)
-				if !ok {
-					continue
-				}
-				target := blk.Nodes[idx]
-				lb, li, ok := g.Pos(l)
-				if !ok {
-					continue
-				}
-				if lb.Nodes[li] == target {
-					return true
-				}
-				if found, _ := g.PathAvoiding(lb.Nodes[li], func(x ast.Node) bool { return x == target }, isUnlock); found {
-					return true
-				}
-			}
-			return false
-		}
+		heldBy := c.lockHolds(info, fn, body)
+		held := func(at ast.Node) bool { return heldBy(at) != nil }
 		isStore := func(sel *ast.SelectorExpr) bool {
 			p := c.Parent(sel)
 			for {
@@ -402,6 +354,63 @@ func ruleR062(c *Ctx) {
 	})
 	if n < 4 {
 		c.Undecided("value.List#cache-accesses", token.NoPos, "only %d accesses to the cache fields found", n)
+	}
+}
+
+
+// lockHolds returns a function that tells which sync Lock call of fn is held
+// at a node: the lock call dominates the node and a path from the lock to the
+// node without a (non deferred) Unlock exists.
+func (c *Ctx) lockHolds(info *types.Info, fn ast.Node, body *ast.BlockStmt) func(at ast.Node) *ast.CallExpr {
+	g := c.CFG(fn)
+	var locks, unlocks []*ast.CallExpr
+	inspectNoLit(body, func(y ast.Node) bool {
+		if call, ok := y.(*ast.CallExpr); ok {
+			if cal := Callee(info, call); cal != nil && cal.Pkg() != nil && cal.Pkg().Path() == "sync" {
+				switch cal.Name() {
+				case "Lock":
+					locks = append(locks, call)
+				case "Unlock":
+					if _, isDefer := c.Parent(call).(*ast.DeferStmt); !isDefer {
+						unlocks = append(unlocks, call)
+					}
+				}
+			}
+		}
+		return true
+	})
+	isUnlock := func(x ast.Node) bool {
+		return containsNode(x, func(y ast.Node) bool {
+			for _, u := range unlocks {
+				if y == ast.Node(u) {
+					return true
+				}
+			}
+			return false
+		})
+	}
+	return func(at ast.Node) *ast.CallExpr {
+		for _, l := range locks {
+			if !g.Dominates(l, at) {
+				continue
+			}
+			blk, idx, ok := g.Pos(at)
+			if !ok {
+				continue
+			}
+			target := blk.Nodes[idx]
+			lb, li, ok := g.Pos(l)
+			if !ok {
+				continue
+			}
+			if lb.Nodes[li] == target {
+				return l
+			}
+			if found, _ := g.PathAvoiding(lb.Nodes[li], func(x ast.Node) bool { return x == target }, isUnlock); found {
+				return l
+			}
+		}
+		return nil
 	}
 }
 
